@@ -21,6 +21,7 @@ def c16_oracle(case, obs):
     addrs = stream_addrs(case, obs)
     # per sending endpoint (ia, port, peer ia, peer port): last window delivered to it, highest ack delivered to it
     wnd, maxack, iss, est = {}, {}, {}, {}
+    upeer = {}                                   # UDP slot -> address it is connected to
     dup_used = any(c[0] == "dup" for c in script)
     for i, (c, o) in enumerate(zip(script, ob)):
         n = c[0]
@@ -97,6 +98,16 @@ def c16_oracle(case, obs):
                     out.append(("step %d: write on slot %d returned WouldBlock with %d of %d bytes queued" % (i, c[1], sq, cfg["send_cap"]), None))
                 if o["r"] == "ok" and (free <= 0 or o["n"] != min(len(c[2]), free)):
                     out.append(("step %d: write of %d bytes with %d of %d queued accepted %d" % (i, len(c[2]), sq, cfg["send_cap"], o["n"]), None))
+        elif n == "udp_connect":
+            if o.get("r") == "ok":
+                upeer[c[1]] = c[2]
+        elif n == "udp_send_c" and c[1] in upeer and o.get("r") not in ("noslot", None):
+            lim = F.mss_of(cfg, upeer[c[1]], 8)
+            if c[2] > lim and o.get("r") != "os90":
+                out.append(("step %d: send of %d bytes on the UDP socket connected to address %d (limit %d) was not "
+                            "rejected with EMSGSIZE: %s" % (i, c[2], upeer[c[1]], lim, o.get("r")), None))
+            if c[2] <= lim and o.get("r") == "os90":
+                out.append(("step %d: connected UDP send of %d bytes (limit %d) rejected with EMSGSIZE" % (i, c[2], lim), None))
         elif n == "udp_send":
             lim = F.mss_of(cfg, c[3], 8)
             if c[2] > lim and o.get("r") != "os90":
@@ -111,7 +122,7 @@ def c16_nontrivial(case, obs):
     for c, o in zip(case["script"], obs["obs"]):
         if c[0] == "write" and (o.get("r") == "WouldBlock" or (o.get("r") == "ok" and o["n"] < len(c[2]))):
             return True
-        if c[0] == "udp_send" and o.get("r") == "os90":
+        if c[0] in ("udp_send", "udp_send_c") and o.get("r") == "os90":
             return True
         if c[0] == "egress":
             for p in o["pk"]:
@@ -135,7 +146,10 @@ class Spec(PropSpec):
     model_name = "TV.NetTcp.Model"
     rule = ("scripts drive the real turmoil-net kernel + tokio shim on the harness thread; the harness is the wire "
             "(egress_all -> scripted deliver / drop / overtake -> deliver); random KernelConfig (MSS 1..1460, caps 1..70000, "
-            "IPv4/IPv6, loopback and cross-host), writes until blocked, slow reads, UDP sends around the MTU limit; compared: "
+            "IPv4/IPv6, loopback and cross-host), writes until blocked, slow reads, UDP send_to AND connected send / try_send "
+            "around the MTU limit of the destination's path; 'mixed' worlds: one host with a loopback and a cross-host "
+            "connection that both have unsent data in the same egress sweep (both socket-table orders, loopback_mtu != mtu), "
+            "every emitted segment checked against the MSS of the interface it leaves from; compared: "
             "every packet (flags, seq, ack, window, payload), every op result, netstat, table counts. Non-trivial = a write "
             "blocked or was cut at the cap, a segment of exactly MSS bytes left, or a UDP send was rejected; distinct = distinct (cfg, script)")
     assumptions = [
@@ -155,6 +169,8 @@ class Spec(PropSpec):
             r = i % 8
             if r < 4:
                 cases.append(F.gen_caps(ctx.rng))
+            elif r < 5:
+                cases.append(F.gen_mixed_mss(ctx.rng))
             elif r < 6:
                 cases.append(F.gen_transfer(ctx.rng))
             elif r < 7:
